@@ -14,13 +14,12 @@
    proved per run by TrigMat obligations on the traced matrices (k <= 6), compared numerically beyond.
 
    NOT PROVED (named honestly):
-   - ehrlich_enumerates for all n (here: every 1 <= k < n <= 12, by computation; the local half -- every step is one transposition -- is proved for all n: ehrlich_steps_are_transpositions);
-   - hw_encoder_ok for all n (ring level: proved in general under the decidable chain_ok condition, which is
-     checked for the real gate skeleton for n <= 10 only); binary-encoder amplitudes; that the real angle
+   - hw_encoder_ok with OPTIMISED controls for all n (ring level: proved for all n with the full control sets,
+     hw_encoder_ok_full_controls; with optimize_controls=True the chain_ok condition is checked for n <= 10 only); binary-encoder amplitudes; that the real angle
      formulas (acos/atan2/norms) satisfy the load equations (covered by the data-level tests, tolerance 1e-10). *)
 From Coq Require Import List Bool Arith Lia Ring ZArith Reals.
 From Coquelicot Require Import Complex.
-From QV Require Import Base.Mat Base.Cis C20.Model C20.Proofs C20.ProofsQFT C20.ProofsPS C20.ProofsQFTMat C20.QFTComplex C20.ProofsAssoc C20.ProofsEhrlich C20.ProofsTree C20.ProofsHW.
+From QV Require Import Base.Mat Base.Cis C20.Model C20.Proofs C20.ProofsQFT C20.ProofsPS C20.ProofsQFTMat C20.QFTComplex C20.ProofsAssoc C20.ProofsEhrlich C20.ProofsTree C20.ProofsHW C20.ProofsEhrlichG3 C20.ProofsEhrlichG4 C20.ProofsEhrlichG5 C20.ProofsHWAll.
 Import ListNotations.
 
 (* ---------------------------------------------------------------- comp_basis_encoder (all n, all bit strings) *)
@@ -200,6 +199,47 @@ Theorem qft_cu1_phase : forall n k, k < n -> ephase n (2 ^ (n - 1 - k)) = cis (P
 Proof. exact ephase_cu1. Qed.
 Print Assumptions qft_cu1_phase.
 
+(* ---------------------------------------------------------------- Ehrlich walk: ehrlich_enumerates for ALL n *)
+(* cf x j y = 0^x 1^j 0^y : every string whose ones are consecutive (the documented admissible inputs of
+   _ehrlich_algorithm; hamming_weight_encoder starts from cf 0 k (n-k), the blocks of the binary encoder from
+   other members).  For every n = x + j + y the walk succeeds, has binom n j strings without repetition, they are
+   exactly the strings of length n and weight j, it ends on the closed form endf x j y, and (by the local
+   theorem) consecutive strings differ by exactly the reported transposition.
+   Proof: the marker automaton is a two-block recursion on the tail (bit p fixed, then one move at p, then bit p
+   flipped), closed under the consecutive-ones shapes; induction on the tail length with the explicit end
+   configurations (ProofsEhrlichG1..G5). *)
+Theorem ehrlich_enumerates : forall x j y, let n := x + j + y in
+  exists strs moves,
+    ehrlich (cf x j y) = Some (strs, moves) /\
+    length strs = binom n j /\
+    NoDup strs /\
+    (forall s, In s strs <-> (length s = n /\ weight s = j)) /\
+    last strs [] = endf x j y /\
+    steps_ok strs moves.
+Proof.
+  intros x j y n. destruct (ehrlich_cf x j y) as [strs [moves [E [L [N [S La]]]]]].
+  exists strs, moves. split; [exact E|]. split; [exact L|]. split; [exact N|]. split; [exact S|]. split; [exact La|].
+  exact (proj2 (ehrlich_local _ _ _ E)).
+Qed.
+Print Assumptions ehrlich_enumerates.
+
+(* the start string of hamming_weight_encoder *)
+Theorem ehrlich_enumerates_initial : forall n k, k <= n ->
+  exists strs moves,
+    ehrlich (initial_string n k) = Some (strs, moves) /\
+    length strs = binom n k /\ NoDup strs /\
+    (forall s, In s strs <-> (length s = n /\ weight s = k)) /\ steps_ok strs moves.
+Proof.
+  intros n k H. rewrite initial_string_cf.
+  destruct (ehrlich_enumerates 0 k (n - k)) as [strs [moves [E [L [N [S [_ T]]]]]]].
+  replace (0 + k + (n - k)) with n in * by lia. exists strs, moves.
+  split; [exact E|]. split; [exact L|]. split; [exact N|]. split; [exact S | exact T].
+Qed.
+Print Assumptions ehrlich_enumerates_initial.
+
+Example endf_examples : endf 0 3 3 = cf 1 3 2 /\ endf 0 2 4 = cf 4 2 0 /\ endf 2 3 1 = cf 0 3 3.
+Proof. repeat split. Qed.
+
 (* ---------------------------------------------------------------- Ehrlich walk: the LOCAL half for ALL n *)
 (* for every n and EVERY initial string: if _ehrlich_algorithm returns, every string has the length and the
    weight of the first one, and each is obtained from its predecessor by exactly one transposition
@@ -210,12 +250,12 @@ Theorem ehrlich_steps_are_transpositions : forall s0 strs moves,
 Proof. exact ehrlich_local. Qed.
 Print Assumptions ehrlich_steps_are_transpositions.
 
-(* ---------------------------------------------------------------- Ehrlich walk (BOUNDED: n <= 12) *)
-(* for every 1 <= k < n <= 12 the walk started at 1^k 0^(n-k) has binom n k strings, without repetition,
+(* ---------------------------------------------------------------- Ehrlich walk (independent cross-check by computation, n <= 10) *)
+(* for every 1 <= k < n <= 10 the walk started at 1^k 0^(n-k) has binom n k strings, without repetition,
    exactly the strings of length n and weight k; consecutive strings differ in exactly two positions (one
    transposition); every reported move (out, in, controls) is the transposition between its two strings
    and its controls are the k-1 ones they share *)
-Theorem ehrlich_enumerates_bounded : forall n k, n <= 12 -> 1 <= k < n ->
+Theorem ehrlich_enumerates_bounded : forall n k, n <= 10 -> 1 <= k < n ->
   exists strs moves,
     ehrlich (initial_string n k) = Some (strs, moves) /\
     length strs = binom n k /\
@@ -264,6 +304,25 @@ Proof.
   apply (hw_encoder_chain R r0 r1 radd rmul rsub ropp Rring). now apply hw_ok_bounded.
 Qed.
 Print Assumptions hw_encoder_ok_bounded.
+
+(* ALL n, full control sets (optimize_controls=False: the variant binary_encoder uses), array coordinates
+   (position p of the bit string = qubit n-1-p): along the Ehrlich walk from ANY consecutive-ones string the gates
+   RBS(out -> in) controlled by the k-1 common ones load the spread c0 r, s0 c1 r, ... on the walk strings (which
+   are all weight-k strings, each once) and amplitude 0 on every other basis state.  The non-interference is a
+   counting argument: k-1 controls plus exactly one of in/out pin a weight-k string to one of the two. *)
+Theorem hw_encoder_ok_full_controls :
+  forall (R : Type) (r0 r1 : R) (radd rmul rsub : R -> R -> R) (ropp : R -> R),
+  ring_theory r0 r1 radd rmul rsub ropp (@eq R) ->
+  forall x j y, let n := x + j + y in let s0 := cf x j y in
+  exists es, walk (binom n j - 1) s0 (markers0 s0) = Some es /\
+    NoDup (s0 :: map e_string es) /\
+    (forall t, In t (s0 :: map e_string es) <-> (length t = n /\ weight t = j)) /\
+    forall (cs : list (R * R)) (r : R), length cs = length es ->
+    forall t, length t = n ->
+      run_hw R radd rmul rsub (map cg_of es) cs (fun u => if bits_eqb s0 u then r else r0) t
+      = amp_of_list R r0 (rev (combine (s0 :: map e_string es) (spread R rmul cs r))) t.
+Proof. exact hw_all_n. Qed.
+Print Assumptions hw_encoder_ok_full_controls.
 
 Example hw_ok_example : hw_ok 5 2 true = true /\ hw_cgates 4 2 true = Some [mkCG 2 0 []; mkCG 0 1 []; mkCG 3 2 [1]; mkCG 1 0 [2]; mkCG 2 1 [0]].
 Proof. split; vm_compute; reflexivity. Qed.
